@@ -56,6 +56,21 @@ def fobj(M0, e0, x):
     return xq.dot(r, r)
 
 
+def lsq_case_term(sys, w, b, X, Bpred, tolc, tolb, tolp=1e-9):
+    """Coq term of type Lsq.case for one fitted row, with an exact-rational certificate point"""
+    Ap, bp, M0, e0 = exact_model(sys, w, b)
+    lb = [float(l) for l in sys["lb"]]
+    ub = [None if not np.isfinite(u) else float(u) for u in sys["ub"]]
+    x0, exact = xq.box_ls(M0, e0, lb, ub, X)
+    L = fobj(M0, e0, x0) if exact else Fr(0)
+    s_ = xq.sqrt_floor(L)
+    m, n = sys["m"], sys["n"]
+    return ("(Lsq.Build_case %s %s %s %s %s %s %s %s %s %s %s %s %s %s %s)" % (
+        qm(np.asarray(sys["A"]).tolist()), cnat(n), obounds(sys["lb"]), obounds(sys["ub"]), kmat_lit(sys["K"], m),
+        qv(base_vec(sys["baseline"], m).tolist()), qv(w), qv(b),
+        qv(X), qv(Bpred), qv(x0), q(s_), q(tolc), qv(tolb), q(tolp)))
+
+
 class C04(Prop):
     id = "C04"
     coq_imports = "From DV Require Import Model.Linear Cert.Duality Model.Lsq."
@@ -147,15 +162,9 @@ class C04(Prop):
     def emit(self, case, out):
         if "error" in out:
             raise ValueError("fit raised %s: %s" % (out["error"], out.get("msg")))
-        sys, Ap, bp, M0, e0, x0, exact = self.certificate(case, out)
-        L = fobj(M0, e0, x0) if exact else Fr(0)
-        s = xq.sqrt_floor(L)
+        sys = self.sysnp(case)
         tolc, tolb = self.tols(case, sys)
-        m, n = sys["m"], sys["n"]
-        return ("(Lsq.Build_case %s %s %s %s %s %s %s %s %s %s %s %s %s %s %s)" % (
-            qm(sys["A"].tolist()), cnat(n), obounds(sys["lb"]), obounds(sys["ub"]), kmat_lit(sys["K"], m),
-            qv(base_vec(sys["baseline"], m).tolist()), qv(case["w"]), qv(case["b"]),
-            qv(out["X"]), qv(out["Bpred"]), qv(x0), q(s), q(tolc), qv(tolb), q(1e-9)))
+        return lsq_case_term(sys, case["w"], case["b"], out["X"], out["Bpred"], tolc, tolb)
 
     def spec_violation(self, case, out):
         if "error" in out:
